@@ -25,6 +25,40 @@ CHECKS = {
             dict(name="random", test="TestRandom", kind="rapid", checks=(2000, 150000), shards=(4, 14), timeout=(200, 1500)),
         ]),
 
+    "C03": dict(
+        pkg="p_codec", level="exploration",
+        technique="property-based round-trip / differential testing against an independent MQTT 3.1.1 reference codec; boundary table enumeration; counter history",
+        level_text=("For generated strict-valid packets of all 14 types (boundary-biased lengths, all flag combinations, 1-40 filters): the message built through the public setters "
+                    "must report Len() == bytes written == length of the reference encoding, produce exactly the reference bytes (also into a pre-filled larger buffer, writing nothing beyond n), "
+                    "decode back to equal fields, and re-encode to the same bytes both by the copy path and by rebuilding from the decoded fields; a boundary table is enumerated completely; "
+                    ">65536 consecutive automatically numbered packets must be well-formed with non-zero ids. Sampling plus one small exhaustive table."),
+        level_note=("Trusted: harness/ref/codec (written from the specification, checked against the spec's and the repository's example packets). Inputs the library accepts leniently but the "
+                    "strict reference rejects are outside the re-encode identity (counted only). Messages the setter API cannot express are checked on the decode/copy path only."),
+        rule=("unit fields: rapid-generated strict-valid packets; non-trivial = a length at a listed boundary, or >= 4 filters/return codes, or a non-default flag combination; distinct = FNV-64 of "
+              "(type, remaining length, flags, id, field lengths, content hash). unit modify: decode a generated packet, apply 1-3 setter calls, compare with the reference encoding of the changed fields (non-trivial = a setter applied). unit boundaries: enumerated table, distinct by construction. unit counter: one history per shard, non-trivial if it crossed a multiple of 65536"),
+        assumptions=["strings are printable ASCII (UTF-8 validity is never decisive)", "packet-id counter is process-global; no assumption about its start value"],
+        units=[
+            dict(name="fields", test="TestC03Fields", checks=(40000, 3000000), shards=(4, 14), timeout=(240, 3000)),
+            dict(name="modify", test="TestC03Modify", checks=(20000, 1500000), shards=(4, 14), timeout=(240, 3000)),
+            dict(name="boundaries", test="TestC03Boundaries", kind="enum", shards=(4, 14), timeout=(240, 1200)),
+            dict(name="counter", test="TestC03Counter", kind="enum", shards=(2, 14)),
+        ]),
+    "C04": dict(
+        pkg="p_codec", level="exploration",
+        technique="structured-mutation fuzzing of reference encodings with canary arenas and field address-range checks; differential against the strict reference decoder",
+        level_text=("Every decoder is fed valid reference encodings, all their single-site structured mutants (enumerated) and random multi-site mutants/random bytes, each in a slice carved "
+                    "out of the middle of a canary-filled array with cap == len (and again with spare capacity): no panic, 0 <= n <= len, canaries untouched, every exposed field's address range "
+                    "inside input[0:n], same decision for both presentations; every strict-valid packet is accepted with the reference's field values (policy-refused CONNECTs get exactly "
+                    "the documented connack error). Exhaustive over the listed mutant table, sampling beyond."),
+        level_note=("Trusted: harness/ref/codec and the unsafe.SliceData address arithmetic. Leniency of the decoders towards inputs the strict reference rejects is not judged."),
+        rule=("unit mutants: enumerated single-site mutants x decoders; non-trivial = any mutant (not the unmodified packet), distinct by (decoder, mutation kind, length class); "
+              "unit random: rapid-generated 0-3-site mutants and random bytes, non-trivial = mutant of a valid packet (not pure random, not unmodified), distinct = FNV-64 of the input"),
+        assumptions=["'stays inside the input' is judged on [ptr, ptr+len) of each exposed slice, not on its capacity"],
+        units=[
+            dict(name="mutants", test="TestC04Mutants", kind="enum", shards=(4, 14)),
+            dict(name="random", test="TestC04Random", checks=(40000, 5000000), shards=(4, 14), timeout=(240, 3000)),
+        ]),
+
     "C14": dict(
         pkg="p_ring", level="exploration",
         technique="property-based testing of generated producer/consumer programs against a position-dependent stream oracle; free-running and harness-controlled schedules",
